@@ -274,6 +274,10 @@ def run_case(case: dict) -> CaseResult:
                     classes.add("local_disconnect_in_flight")
                     env.spawn(f"ldisc{i}", sess.cli.disconnect())
                     expected_writes.append(5)
+            elif o in ("pause", "resume"):
+                # write-side flow control of the transport: answers to the device's requests are written all the same
+                classes.add("writing_paused")
+                (tr.proto.pause_writing if o == "pause" else tr.proto.resume_writing)()
             elif o == "peer":
                 classes.add("peer_request")
                 what = op["what"]
@@ -665,6 +669,9 @@ def enumerated(tier):
             run = [{"op": "msg", "type": (26, 25)[k % 2], "payload": {"key": k + 1}, "merge": True} for k in range(n - 1)] + [{"op": "msg", "type": 26, "payload": {"key": n}}]
             yield {"kind": "history", "noise": noise, "ops": [{"op": "sub", "id": "c0", "types": [26, 25], "script": []}] + run}
             yield {"kind": "history", "noise": noise, "ops": [{"op": "sub", "id": "c0", "types": [26, 25, 5], "script": []}] + run[:-1] + [{"op": "msg", "type": 26, "payload": {"key": n}, "merge": True}, {"op": "peer", "what": "discreq"}]}
+    for noise in (False, True):
+        for what in ("ping", "gettime", "discreq"):
+            yield {"kind": "history", "noise": noise, "ops": [{"op": "sub", "id": "c0", "types": [26], "script": []}, {"op": "pause"}, {"op": "peer", "what": "ping"}, {"op": "msg", "type": 26, "payload": {"key": 1}}, {"op": "peer", "what": what}]}
     # several frames in ONE chunk while the client's own disconnect is in flight: each is dispatched, in order
     for noise in (False, True):
         for n in (2, 3, 5):
